@@ -107,11 +107,21 @@ CHECKS = {
        "COMMIT decisions (ok / read conflict) and the committed rows of scheduled interleavings of 2-4 sessions vs the Lean model of per-index snapshots + read-set + "
        "checkPreconditions; oracle: every acknowledged transaction replayed on the reference AT ITS COMMIT POINT must be valid there (of two overlapping writers of one unique "
        "tuple / primary key at least one fails), table = replay, all constraints after every commit; goroutine rounds (barrier-released autocommit statements and racing COMMITs): "
-       "at most one acknowledged writer per contended tuple, table = reference + acknowledged writes.",
+       "at most one acknowledged writer per contended tuple, table = reference + acknowledged writes. "
+       "CONSTRAINTS ADDED WHILE SESSIONS ARE ACTIVE (c12_ddl.go, model Sql/CatalogDml.lean = Sql/Dml.lean joined with the catalog-cache protocol Sql/CatalogCache.lean): theorems "
+       "new_tx_checks_against_committed_schema (in every schedule of any number of sessions — empty / reader / writer transactions, DDL, COMMITs, re-open, cold or warm engine cache — "
+       "the transaction NewTx opens is registered with the COMMITTED catalog generation, so its statements run `exec` under the schema that contains every committed constraint), "
+       "insert_after_committed_unique_index_rejects_duplicate (then doUpsert refuses a row whose values under a committed UNIQUE index are held by a live row with another key; R2 excluded by hypothesis), "
+       "insert_after_committed_not_null_enforced_partial, witnesses stale_schema_admits_duplicate (version bump skipped on a cold cache: generation 0 registered while 1 is committed, duplicate accepted) / "
+       "same_schedule_code_rejects_duplicate; tie `c12 ddl …`: catalog generation and cache hit/miss of every BEGIN / autocommit statement / autocommit query and the mandatory catalog "
+       "conflicts at COMMIT on schedules with CREATE TABLE (PK, AUTO_INCREMENT, NOT NULL, CHECK, VARCHAR[n]) / CREATE [UNIQUE] INDEX on empty and populated tables / DROP INDEX / ADD|DROP|RENAME COLUMN / DROP TABLE "
+       "interleaved with open transactions of 2-4 sessions; ORACLE = persisted truth: after every commit a FRESH engine on the same store loads catalog and rows, every constraint that catalog "
+       "declares is checked over the rows, both must equal the reference (acknowledged transactions applied at their commit points under the catalog persisted there: a statement that must fail there was not acknowledged).",
   note=TB + " Modelled rather than verified: the transient index entries of an open transaction (statements writing several rows of an indexed table are kept out of the "
        "correspondence; that behaviour is finding R1), DEFAULT values, JSON, FOREIGN KEY, ALTER TABLE, implicit INTEGER->FLOAT conversion; the concurrent-session model covers statements addressed by primary key with every row / unique tuple written once per transaction "
        "(the early `return nil` of checkPreconditions and non-default snapshot options are C05's), duplicate freedom of every reachable store is NOT proved (false in general: R2) "
-       "— the harness checks it. Known signatures for root causes R1, R2, R3, R4, R9 (known_findings.json).",
+       "— the harness checks it; the schema history of Sql/CatalogDml.lean is an abstract function generation -> Schema (one table; what DDL does to the catalog is the harness reference's business), "
+       "the catalog-cache model is the C13 one (NewTx is one step; the read-only fill race ro_fill_not_atomic_stale is outside). Known signatures for root causes R1, R2, R3, R4, R9, R18 (SET NOT NULL not persisted), R19 (DROP TABLE with CHECK fails) (known_findings.json).",
   technique="Lean 4 proof (invariant preservation by induction over the statement interpreter; concrete witnesses by kernel evaluation) + differential correspondence + invariant checking after every commit",
   design="7/C12"),
  "C11": dict(
@@ -209,11 +219,19 @@ CHECKS = {
        "step by step. Oracle (model-independent): record at ack / first sight, whole history re-read after every step through ReadTx, ReadTxHeader, ExportTx, ReadValue, TxReader "
        "asc/desc, CommittedAlh against independent reference Alh / entries-root / Merkle-root computations; after every reopen a reference log of every tx ever written (bytes + parent) "
        "judges what Open reloaded, committed and pre-committed: ids, PrevAlh chain, provenance, parent, liveness; branch histories over several lives of one store with same-size "
-       "txs (in-place overwrites leaving aligned stale records behind the live tail) are generated for it.",
+       "txs (in-place overwrites leaving aligned stale records behind the live tail) are generated for it. VALUES under maintenance (Store/TruncateRun.lean: committers in two phases — "
+       "values staged in a value log, id assigned later, any order — interleaved with TruncateUptoTx = C14's statement-by-statement model, index maintenance, restarts; unbounded): "
+       "committed_values_survive_maintenance / acked_values_survive_maintenance (a value readable when its tx was acknowledged stays readable, same location, after every op sequence whose "
+       "cuts are <= its id), maintenance_keeps_tx_log, reachable_values_placed, and the negative results inflight_values_not_covered (known finding, C14's K6) and walk_must_reach_last_committed. "
+       "Harness: inversion episodes (parked CommitWith + queued committers; ReplicateTx started ahead of its predecessors) with TruncateUptoTx at / below / inside the episode's ids, "
+       "FlushIndexes, CompactIndexes, index reopen and restarts as ordinary ops of sequential, replica and concurrent histories; truncation outcome, surviving chunk files and per-entry "
+       "readability are compared with the model through the driver's c14 ops; the re-read oracle covers the values (ReadValue, ExportTx: below the largest cut only io.EOF / digests / "
+       "'partially truncated').",
   note=TB + " Modelled rather than verified: atomicity of critical sections (lock granularity; goroutine interleavings below that and the watcher hubs are only sampled by the "
        "concurrent runs), tx-log/commit-log at record granularity (byte layout, chunk rotation and flush timing are exercised by the harness, not modelled; a tx-log write is in place and keeps "
        "the records behind it iff the serialized sizes agree, otherwise they are treated as lost; the flush-dependent fate of a record written by a failed cLogBuf.put is avoided by the harness), the KV index (precondition verdicts are supplied by the harness), "
-       "a pooled tx holder's stale BlRoot when BlTxID = 0 (known finding; an input of the model ops, observed on the stored header). Five signatures of genuine defects are registered as known findings.",
+       "a pooled tx holder's stale BlRoot when BlTxID = 0 (known finding; an input of the model ops, observed on the stored header); in the value-log part: the placement of staged values is observed (tx log + chunk files on disk), not predicted, and index maintenance / restart are "
+       "no-ops on tx log and value logs by definition of the model (exercised by the harness). Six signatures of genuine defects are registered as known findings.",
   technique="Lean 4 proof (invariant + induction over op lists) + step-by-step differential correspondence + full-history re-read oracle on the real store",
   design="7/C02"),
  "C19": dict(
@@ -259,13 +277,24 @@ CHECKS = {
        "Get, GetBetween, GetWithPrefix, History (offsets/limits/orders), Snapshot.Get/History, KeyReader (ranges, prefixes, filters, offsets, history) and, in a second stage, "
        "through pkg/database Get/Get-at-revision/GetAll/Scan/History/Count; every answer is compared with the Lean driver (which runs the indexer model in the same bulk partition) "
        "and with an independent Go replay of the acknowledged commits (index content = log, each read API = function of the index content). Deterministic probes of every repaired defect run at "
-       "each check and report it under its old signature should it return (the driver then answers unsupported-variant as well).",
-  note=TB + " Modelled rather than verified: the B-tree itself (nodes, cache, flush, history log, compaction, recovery) is abstracted to a sorted multi-version map — C10's subject; "
+       "each check and report it under its old signature should it return (the driver then answers unsupported-variant as well). "
+       "Compaction INTERLEAVED with writers (added for seeded c04-b): compaction_restart_preserves_refinement (index restarted from the dump of a snapshot root with the ts fullDump claims = snap.Ts(), "
+       "then any bulks over pending(ts, log): the whole log again, whatever the live tree had indexed during the dump), restart_preserves_refinement_of_claim_le, restart_with_overclaimed_ts_loses_transactions "
+       "(claimed ts c > dump ts: the result holds the log WITHOUT the txs in (dump ts, c] — not the log as soon as one of them is indexable), compaction_facts_match_code (Compact snapshots t.root, "
+       "fullDump writes snap.Ts() into TIMESTAMP<snap.Ts()>, OpenWith raises the root ts to the file's value, doIndexing resumes at Ts()+1 — regenerated from the tree). Harness stage c04compact.go: the store is "
+       "opened with an appendable factory whose history/node logs call back from inside TBtree.fullDump, so every dump is held (gate schedule: until the harness has committed k txs and seen them indexed by the "
+       "live tree; free schedule: a writer goroutine commits while {FlushIndexes; CompactIndexes} loops and every dump sleeps a few ms); repeated compactions, all seven index layouts, reopen; op `c04 compact i s` "
+       "(model: compactRestart of the re-built dump; implementation: content of TIMESTAMP<s>); the content/read oracle runs at QUIESCENT points only (writers joined, compaction returned, every index POLLED up to "
+       "the last tx via SnapshotMustIncludeTxID — not via the wait hub) and again after Close/Open.",
+  note=TB + " Compaction stage: which transactions fall into a dump window is scheduled by the harness (gate) or by timing (free); three genuine races of restartIndex with the indexing goroutines are "
+       "recognised by their cause (goroutine census per indexer; stale-lookup fingerprint) and reported as known findings, everything else at a quiescent point is a new failure. "
+       "Modelled rather than verified: the B-tree itself (nodes, cache, flush, history log, compaction, recovery) is abstracted to a sorted multi-version map — C10's subject; "
        "value offsets and tx metadata are not part of the compared answers; mappers are total functions; time is an injected `now` (the code uses time.Now(), the harness keeps expirations "
        "10^6 s away from it); which index serves a key (getIndexerFor iterates a Go map: nested target prefixes would make it order dependent) is fixed by using non-nested prefixes; "
        "the asynchronous interleaving of indexer and writers is sampled (burst mode), not enumerated — no hook exists in /repo; when the bulk partition is unknown (burst) and a defect "
        "made the content partition dependent the Lean comparison of that case is skipped and counted (oracle still applies). one_live_mapped_key_per_row is proved for a target mapper over a "
-       "plain source index (no source mapper). Known finding left: db.Count counts deleted/expired keys (a maintainer decision); six repaired ones are listed under 'fixed' in known_findings.json.",
+       "plain source index (no source mapper). Known findings left: db.Count counts deleted/expired keys (a maintainer decision); restartIndex does not wait for the indexing goroutine (two goroutines per index, lost txs); an injective indexer's goroutine "
+       "returns when its source index is restarted during its lookup (index stops for good); stale source lookup during the post-compaction regress (two live mapped keys). Six repaired ones are listed under 'fixed' in known_findings.json.",
   technique="Lean 4 proof (refinement of a log comprehension by a bulk indexer on a sorted multi-version association list; list induction) + differential correspondence against the real embedded/store and pkg/database",
   design="7/C04"),
  "C03": dict(
@@ -404,15 +433,23 @@ CHECKS = {
        "(2) row values (EncodeRawValue/decodeValue): value_roundtrip (timestamps to microseconds), witness nullable_empty_varchar/blob_decodes_null. "
        "(3) store: txmd_roundtrip, kvmd_roundtrip, txheader_roundtrip (v0/v1, any metadata), txmd_readFrom_no_panic, txheader_readFrom_no_panic, "
        "txmd_readable_is_serializable (what ReadFrom accepts is within the API limits and round-trips; the former panic witness is repaired in /repo). "
+       "(4) exported transactions (ExportTx writer / parsing part of ReplicateTx, Tx/Export.lean): export_roundtrip, export_entries_roundtrip "
+       "(every entry list, each entry with its own optional KV metadata, any tail), export_entry_frames_independent, export_entries_preserved, "
+       "export_injective, witness export_empty_metadata_reads_back_absent. "
        "Tie: the real functions are called on boundary-biased values, pairs, rows and mutated encodings; every call is replayed on the Lean driver "
        "and compared byte for byte (encodings, decoded values, Compare results, error classes, panics); an independent oracle checks "
        "decode(encode v) = v, Go Compare = bytes.Compare of the Go keys, equal values => equal keys, row order = composite key order, "
-       "plus two end-to-end SQL probes.",
+       "plus two end-to-end SQL probes. Export part: real stores (header v0/v1, embedded values / value logs / truncated value logs) with "
+       "transactions of 1..MaxTxEntries entries whose entries draw metadata (none, empty, deleted, expirable, non-indexable, combinations) and "
+       "value size independently; ExportTx bytes are parsed by the harness's own frame parser and compared with the committed inputs (header, key, "
+       "metadata bytes exactly, value or digest), replicated into an empty replica (same Alh, entries, values, re-export) and compared byte for byte "
+       "with the Lean exportTx / parseExported (ops xp.enc / xp.dec).",
   note=TB + " Modelled rather than verified: Go values are represented as byte lists / Int / IEEE bit patterns / (sec,nsec) instants; float64 "
        "comparison of non-NaN values is taken to be signed-magnitude comparison of the bit patterns (confirmed on every generated pair); "
        "mayApplyImplicitConversion is the identity on the modelled domain (raw Go type = column type), JSON values, documents, protocol "
-       "conversions and ExportTx framing are not modelled; int overflow of maxLen >= 2^62 in DecodeValueFromKey is outside the model; "
-       "sql.MaxKeyLen is the extracted default (1024). Known findings (11 signatures) are genuine defects of /repo, see known_findings.json.",
+       "conversions are not modelled; of ExportTx the framing is modelled (reading the values from the value logs, the 'partially truncated' exit and "
+       "skipIntegrityCheck - which exports Eh = 0 - are observed by the harness only); int overflow of maxLen >= 2^62 in DecodeValueFromKey is outside the model; "
+       "sql.MaxKeyLen is the extracted default (1024). Known findings (12 signatures) are genuine defects of /repo, see known_findings.json.",
   technique="Lean 4 proof (lexicographic-order lemmas, bit-level arithmetic by omega, list induction) + differential correspondence against embedded/sql and embedded/store codecs",
   design="7/C15"),
  "C01": dict(
